@@ -339,6 +339,7 @@ async function op_query_csv_sink(req) {
     let input = req.input;
     let join = req.join === undefined ? null : req.join;
     let before_in = JSON.stringify(input), before_join = JSON.stringify(join);
+    let before_cols = JSON.stringify([req.input_cols || null, req.join_cols || null]);
     let sink = new CollectWritable();
     let warnings = [];
     let error = null;
@@ -353,7 +354,8 @@ async function op_query_csv_sink(req) {
     }
     return {error: error, warnings: warnings, bytes_hex: Buffer.concat(sink.parts).toString('hex'),
             input_unchanged: JSON.stringify(input) === before_in, join_unchanged: JSON.stringify(join) === before_join,
-            input_after: JSON.stringify(input), join_after: JSON.stringify(join)};
+            input_after: JSON.stringify(input), join_after: JSON.stringify(join),
+            cols_unchanged: JSON.stringify([req.input_cols || null, req.join_cols || null]) === before_cols, cols_after: JSON.stringify([req.input_cols || null, req.join_cols || null])};
 }
 
 async function op_query_batch(req) {
